@@ -1154,17 +1154,33 @@ func (s *c14Session) removal() {
 		s.takeHandle()
 		if s.in.Act == "rm" {
 			var err error
+			// the holder only races with a removal that is going to happen (a refused one must leave everything as it was,
+			// the holder's own commits included)
+			var unique error
+			if s.target.Kind == "bug" {
+				_, unique = s.mc.Bugs().ResolveExcerptPrefix(s.prefix)
+			} else {
+				_, unique = s.mc.Identities().ResolveExcerptPrefix(s.prefix)
+			}
+			stopRacer := func() {}
+			if unique == nil {
+				stopRacer = s.startRacer()
+			}
 			if s.target.Kind == "bug" {
 				err = s.mc.Bugs().Remove(s.prefix)
 			} else {
 				err = s.mc.Identities().Remove(s.prefix)
 			}
+			stopRacer()
 			out, es := outOf(err)
 			s.record(fmt.Sprintf("ACacheRemove %s %s", coqKind(s.target.Kind), c14Text(s.prefix)), "cache-rm", out, es)
 			s.noteRemoved(out)
 			s.staleCommit(out == "XOk")
 		} else {
-			out, es := outOf(s.mc.RemoveAll())
+			stopRacer := s.startRacer()
+			err := s.mc.RemoveAll()
+			stopRacer()
+			out, es := outOf(err)
 			s.record("ACacheRemoveAll", "cache-rmall", out, es)
 			s.staleCommit(out == "XOk")
 		}
@@ -1232,6 +1248,52 @@ func (s *c14Session) takeHandle() {
 	} else {
 		if h, err := s.mc.Identities().Resolve(entity.Id(id)); err == nil {
 			s.staleI = h
+		}
+	}
+}
+
+// startRacer: the holder of the handle is in the middle of its work WHILE the removal runs: edit + Commit in a loop on
+// the instance resolved before. Every such commit either completes before the instance is marked as removed (its ref is
+// then deleted by the removal) or is refused (Remove.v, remove_vs_commits): whatever the schedule, the observations after
+// the removal are those of the removal alone, so the model needs no new action. The answers of the racing calls are not
+// judged (C18 judges acknowledgements); only what they leave behind is. Returns the function that stops the holder and
+// waits for it. Only started when the removal can't fail for lack of a target (a handle was resolved).
+func (s *c14Session) startRacer() func() {
+	hb, hi := s.staleB, s.staleI
+	if (hb == nil && hi == nil) || s.skip != "" {
+		return func() {}
+	}
+	stop, done := make(chan struct{}), make(chan struct{})
+	n := 0
+	go func() {
+		defer close(done)
+		for i := 0; i < 400; i++ {
+			select {
+			case <-stop:
+				return
+			default:
+			}
+			var err error
+			if hb != nil {
+				_, _, _ = hb.AddCommentRaw(s.uc, s.now(), fmt.Sprintf("written while the removal runs %d", i), nil, nil)
+				err = hb.Commit()
+			} else {
+				_ = hi.Mutate(s.mrepo, func(m *identity.Mutator) { m.Name = fmt.Sprintf("renamed while the removal runs %d", i) })
+				err = hi.Commit()
+			}
+			if err == nil {
+				n++
+			}
+		}
+	}()
+	// let the holder get into its first commit before the removal starts
+	time.Sleep(time.Duration(5+((s.in.Target%20)+20)%20) * time.Millisecond)
+	return func() {
+		close(stop)
+		<-done
+		s.tags["racing-holder"] = true
+		if n > 0 {
+			s.tags["racing-holder-committed"] = true
 		}
 	}
 }
